@@ -55,12 +55,12 @@ PROPS['C04'] = dict(
 
 PROPS['C13'] = dict(
     src='props/C13.cpp', variants=['fast', 'asan'], level='exploration',
-    rule=('(parent, childRes, position) triples incl. sub-block boundaries, whole child arrays for depth differences <=6 (8 thorough), (child, every ancestor) pairs, '
+    rule=('(parent, childRes, position) triples incl. sub-block boundaries, whole child arrays for depth differences <=6 (7 thorough), (child, every ancestor) pairs, '
           'error clauses; complete stratum: every pentagon parent of every res x every child res (whole array up to depth 5/7, first-level sub-block boundaries beyond). '
           'non-trivial = child res finer than parent res (or an in-range error argument); distinct by the case tuple'),
     quick=dict(cases={'fast': 400_000, 'asan': 30_000}, enum={'fast': 4}),
-    thorough=dict(cases={'fast': 10000000, 'asan': 500000}, enum={'fast': 8}),
-    strata=dict(quick=['12 pentagons x 16 res x every child res: whole array (depth<=5) + sub-block boundaries'], thorough=['same with depth<=7']),
+    thorough=dict(cases={'fast': 3_000_000, 'asan': 200_000}, enum={'fast': 8}),
+    strata=dict(quick=['12 pentagons x 16 res x every child res: whole array (depth<=5) + sub-block boundaries'], thorough=['same with depth<=6']),
     level_text=('childPosToCell / cellToChildPos compared with the reference enumeration order on digit strings (lexicographic with the deleted digit-1 branch under a pentagon chain), '
                 'round trip both ways, position-by-position agreement with cellToChildren, and the three documented error codes'),
     level_note='trusted: engine/h3ref.hpp child_at / child_pos (self-tested against each other and against monotonic order at start-up)',
